@@ -113,6 +113,12 @@ func c05Spell(words []string, i int, style string) string {
 		return strings.Join(words, "-") + idx
 	case "lower":
 		return strings.Join(words, "") + idx
+	case "hdr": // Title-Kebab, the canonical MIME header form
+		ws := make([]string, len(words))
+		for j, w := range words {
+			ws[j] = c05Title(w)
+		}
+		return "X-" + strings.Join(ws, "-") + idx
 	case "usnake": // Upper_Snake
 		ws := make([]string, len(words))
 		for j, w := range words {
@@ -433,6 +439,29 @@ func (v *c05JV) toAny() any {
 		return out
 	}
 	panic("c05: bad node")
+}
+
+// yamlView: what the YAML path hands to the unmarshaler: a YAML null becomes
+// the empty string (internal/encoding.toStringKeyMap). Used only to evaluate
+// the panic predicates on the YAML entry points.
+func (v *c05JV) yamlView() c05JV {
+	switch v.T {
+	case "null":
+		return c05Str("")
+	case "arr":
+		l := make([]c05JV, len(v.L))
+		for i := range v.L {
+			l[i] = v.L[i].yamlView()
+		}
+		return c05JV{T: "arr", L: l}
+	case "obj":
+		m := make([]c05KV, len(v.M))
+		for i := range v.M {
+			m[i] = c05KV{K: v.M[i].K, V: v.M[i].V.yamlView()}
+		}
+		return c05JV{T: "obj", M: m}
+	}
+	return *v
 }
 
 func c05Sprint(v reflect.Value) string {
